@@ -155,7 +155,6 @@ def run(ctx: Ctx):
         fw = M.method("ode", f"_print_{cname}")
         ctx.require(fw, f"writer _print_{cname} not found")
         all_args_joined(fw, None, ctx, "R15.d", cname)
-    be = sm.func("expressions.py", "build_expression.expr2symbols")
-    gen = [c for c in ast.walk(be.node) if isinstance(c, ast.Call) and isinstance(c.func, ast.Call) and (dotted(c.func.func) or "") == "getattr"]
-    okg = bool(gen) and all(len(c.args) == 1 and isinstance(c.args[0], ast.Starred) and norm(c.args[0].value).endswith("for c in tree.children[1:]]") for c in gen)
-    ctx.check(okg, "R15.d", be.key("apply-all"), "the reader applies functions to every argument", "build_expression does not apply a function to every argument child: And(a, b, c) written by the saver loses operands on reload", be.where())
+    from .c11 import check_apply_all
+
+    check_apply_all(ctx, "R15.d")
